@@ -8,7 +8,7 @@
    with the evaluation thread, starts, stops, stop requests, spurious wake-ups), policy
    [pl] (Queue, Burst, Confl), capacity [c] (0 = unbounded).
    Level: PARTIAL — atomicity of each critical section and the memory model are assumed. *)
-Require Import Base PushQ PushQInv PushQInv2 PushQFacts.
+Require Import Base PushQ PushQInv PushQInv2 PushQFacts PushQBridge.
 From Coq Require Import ZifyBool.
 
 (* The values delivered to the graph are, in order, a prefix of the values whose send was accepted
@@ -148,6 +148,30 @@ Theorem acceptor_decides_history_ok : forall h, pushq_history_ok h = true <-> Hi
 Proof. exact PushQFacts.history_ok_iff. Qed.
 Print Assumptions acceptor_decides_history_ok.
 
+(* ---- bridge between the LTS's acceptance order and what a harness observes (tickets around calls) ---- *)
+(* A call on its "accepted" return path has its entry in the acceptance log ... *)
+Theorem returned_accepted_is_logged : forall pl c n ls, let s := reach pl c n ls in
+  forall p, (p < length (prods s))%nat -> admitted (pc (get_prod p s)) = true -> In (cur (get_prod p s)) (accepted s).
+Proof. exact PushQBridge.returned_accepted_is_logged. Qed.
+Print Assumptions returned_accepted_is_logged.
+
+(* ... and whatever is in the log when a send call begins stays ahead of that call's own entry: real-time
+   order of calls (x returned before y began) is contained in the acceptance order.  With
+   delivered_is_prefix_of_accepted this is the acceptor's FIFO clause.
+   PARTIAL bridge.  Full statement, not proved: every run of the LTS, recorded with step indices as
+   tickets (send begin / return, cycle begin, delivery), yields a history h with HistoryOK h.  Proved
+   here: the order clause (ok_fifo) and, by delivered_once_each_in_own_cycle, ok_once / ok_times; the
+   counting clauses (ok_cap, ok_batch, ok_refuse against tickets) are not bridged. *)
+Theorem real_time_order_in_acceptance_order_partial : forall pl c n ls1 q v k ls2,
+  let s1 := reach pl c n ls1 in
+  pc (get_prod q s1) = PIdle -> (q < length (prods s1))%nat ->
+  (forall l, In l ls2 -> l <> LCStart) ->
+  let s2 := run ls2 (do_step s1 (LBegin q v k)) in
+  let y := mkEntry q (nsent (get_prod q s1)) v in
+  forall i j e, In e (accepted s1) -> nth_error (accepted s2) i = Some e -> nth_error (accepted s2) j = Some y -> (i < j)%nat.
+Proof. exact PushQBridge.accepted_before_begin_is_ahead. Qed.
+Print Assumptions real_time_order_in_acceptance_order_partial.
+
 (* ---- non-vacuity ---- *)
 (* two producers, capacity 1: p0's value is accepted, p1's try_send is refused (full), a cycle delivers,
    p1 sends again and is accepted: a reachable state with a delivery, a queued value and the flag set *)
@@ -176,6 +200,14 @@ Example c16_blocked_sender_reachable :
                              LBegin 1 20 KBlock; LProd 1; LProd 1; LProd 1]) in
   pc (get_prod 1 s) = PWaiting /\ accepting s = true /\ pc (get_prod 0 s) = PMark /\ flag s = false /\ vals s <> [].
 Proof. vm_compute. repeat split; try reflexivity. discriminate. Qed.
+
+(* the bridge's premises are met: p0's value is in the log when p1 begins its second call, whose entry
+   (1, 1, 21) lands behind it *)
+Example c16_bridge_premises :
+  let s1 := reach Queue 1 2 (firstn 19 ex_labels) in
+  pc (get_prod 1 s1) = PIdle /\ map e_val (accepted s1) = [10] /\
+  map e_val (accepted (run (skipn 20 ex_labels) (do_step s1 (LBegin 1 21 KTry)))) = [10; 21].
+Proof. vm_compute. repeat split; reflexivity. Qed.
 
 (* a recorded history accepted by the acceptor *)
 Example c16_history_accepted :
